@@ -19,10 +19,10 @@ def main(argv):
             inputs = [json.load(f)["input"]["id"]]
         rep.replay_only = args.replay
     else:
-        inputs = rb.domain_inputs(args.tier, args.seed, "XRB")
+        inputs = rb.domain_inputs(args.tier, args.seed, "XRBS")
     d = rb.workdir(PROP)
     try:
-        res = rb.record_domain(inputs, d, jobs=args.jobs, shards=args.jobs, stages=True)
+        res = rb.record_domain(inputs, d, jobs=args.jobs, shards=args.jobs, stages=True, heavy=70)
         out = explore(res, args.jobs)
     finally:
         tlc.cleanup(d)
